@@ -287,4 +287,246 @@ def obligations(tier, seed):
                           "valuesHaveDiverged(scalar) <=> |actual-expected| > tolerance (both signs)",
                           {"tolerance": ">= 0", "values": "any real"}, [sim.Simulation.valuesHaveDiverged],
                           ["reals for floats"], system_replay=_scalar_div_replay))
+    import scenic.core.distributions as dist
+    import scenic.core.scenarios as scn
+
+    enc_scene = [S.Serializer.writeScene, S.Serializer.readScene, S.Serializer.writeSamplable, S.Serializer.readSamplable,
+                 dist.Samplable.serializeValue, dist.Samplable.deserializeValue, dist.Distribution.serializeValue,
+                 dist.Distribution.deserializeValue, dist.MultiplexerDistribution.serializeValue,
+                 dist.MultiplexerDistribution.deserializeValue, scn.Scenario._makeSceneFromSample, S.writeFloat, S.readFloat, S.writeInt, S.readInt]
+    for name in SCENE_PROGRAMS:
+        for cond in (False, True):
+            tag = f"{name}{'+conditionOn' if cond else ''}"
+            obs.append(Obligation(f"scene-roundtrip[{tag}]", h_scene(name, cond, "roundtrip"),
+                                  "sceneFromBytes(sceneToBytes(scene)) has the same object properties and parameters, for every value of the random draws",
+                                  {"draws": "symbolic (reals / ints in their ranges, every branch of every choice)"}, enc_scene,
+                                  ["random.uniform/gauss/random/randint/choices as symbolic draws", M.STRUCT_MODEL, "Stream"],
+                                  opts=(dict(total_timeout=60.0, per_path_timeout=30.0, max_paths=24) if name == "mutation"
+                                        else dict(total_timeout=300.0, per_path_timeout=60.0)), setup=_scene_setup(name, cond)))
+    for name in ("primitive-distributions", "multiplexers"):
+        obs.append(Obligation(f"scene-truncation[{name}]", h_scene(name, False, "truncation"),
+                              "every strict prefix of an encoded scene is refused with SerializationError",
+                              {"cut": "0..len-1", "draws": "symbolic"}, enc_scene, [M.STRUCT_MODEL, "Stream"],
+                              opts=dict(total_timeout=300.0, per_path_timeout=60.0), setup=_scene_setup(name, False)))
+    obs.append(Obligation("scene-foreign-header[primitive-distributions]", h_scene("primitive-distributions", False, "foreign"),
+                          "any change to the format version, program hash or options hash is refused",
+                          {"byte": "any header byte", "new value": "0..255, different"}, enc_scene, [M.STRUCT_MODEL, "Stream"],
+                          opts=dict(total_timeout=300.0, per_path_timeout=60.0), setup=_scene_setup("primitive-distributions", False)))
     return obs
+
+
+# ------------------------------------------------------------------ whole scenes: encode / decode with symbolic draws
+SCENE_PROGRAMS = {
+    "primitive-distributions": """
+param p_range = Range(0, 10)
+param p_disc = DiscreteRange(-3, 400)
+param p_opt = Uniform(1, 2.5, 7)
+param p_norm = Normal(0, 1)
+ego = new Object at (Range(-5, 5), Range(-5, 5)), with allowCollisions True, with requireVisible False, with foo Range(0, 1)
+other = new Object at (DiscreteRange(10, 20), 3), with allowCollisions True, with requireVisible False, with bar DiscreteRange(0, 300)
+""",
+    "derived-values": """
+a = Range(0, 1)
+b = DiscreteRange(5, 9)
+param s = a + b
+param t = (a * 2, b - 1)
+ego = new Object at (a + 3, b), with allowCollisions True, with requireVisible False, with foo a + Range(10, 11), with bar 2 * b
+other = new Object at (20, a - b), with allowCollisions True, with requireVisible False, with foo ego.foo + 1
+""",
+    "multiplexers": """
+param m = Uniform(Range(0, 1), DiscreteRange(5, 9), 42)
+param w = Options({Range(2, 3): 1, 7: 2})
+param n = Uniform(Uniform(1, 2), Range(3, 4))
+sel = Uniform(Range(0, 1), Range(10, 11))
+ego = new Object at (sel, 0), with allowCollisions True, with requireVisible False, with foo sel + 1
+""",
+    "regions-and-vectors": """
+param v = Range(0, 1) @ Range(2, 3)
+ego = new Object in RectangularRegion((0, 0), 0, 4, 6), with allowCollisions True, with requireVisible False
+other = new Object at ego.position + (10 @ Range(0, 2)), with allowCollisions True, with requireVisible False, with foo ego.position.x
+""",
+    "mutation": """
+ego = new Object at (Range(-5, 5), 0), with allowCollisions True, with requireVisible False
+other = new Object at (20, Range(0, 2)), with allowCollisions True, with requireVisible False
+mutate ego
+""",
+}
+
+_SCENES = {}
+
+
+class SceneRNG:
+    """random.* as symbolic draws constrained to their documented ranges."""
+
+    def __init__(self, ctx):
+        self.ctx = ctx
+
+    def uniform(self, a, b):
+        u = self.ctx.real("uniform")
+        self.ctx.assume(E.sym_and(a <= u, u <= b))
+        return u
+
+    def gauss(self, mu, sigma):
+        return self.ctx.real("gauss")
+
+    def random(self):
+        u = self.ctx.real("random", 0, None)
+        self.ctx.assume(u < 1)
+        return u
+
+    def randint(self, a, b):
+        r = self.ctx.int("randint")
+        self.ctx.assume(E.sym_and(a <= r, r <= b))
+        return r
+
+    def choices(self, population, weights=None, *, cum_weights=None, k=1):
+        population = list(population)
+        i = self.ctx.int("choice", 0, len(population) - 1)
+        j = 0
+        while j < len(population) - 1 and not (i == j):
+            j += 1
+        return [population[j]]
+
+
+class _RNGPatched:
+    def __init__(self, rng):
+        self.rng = rng
+
+    def __enter__(self):
+        import random
+
+        self.saved = {n: getattr(random, n) for n in ("uniform", "gauss", "random", "randint", "choices")}
+        for n in self.saved:
+            setattr(random, n, getattr(self.rng, n))
+
+    def __exit__(self, *a):
+        import random
+
+        for n, f in self.saved.items():
+            setattr(random, n, f)
+        return False
+
+
+def _scene_setup(name, conditioned):
+    def s():
+        import scenic
+
+        sc = scenic.scenarioFromString(SCENE_PROGRAMS[name], mode2D=True)
+        for _ in range(2):
+            scene, _n = sc.generate(maxIterations=50, verbosity=0)
+            sc.sceneFromBytes(sc.sceneToBytes(scene))
+        if conditioned:
+            params = {}
+            for p, v in sc.params.items():
+                params[p] = 1.5
+                break
+            sc.conditionOn(scene=scene, objects=(len(sc.objects) - 1,), params=params)
+            scene, _n = sc.generate(maxIterations=50, verbosity=0)
+            sc.sceneFromBytes(sc.sceneToBytes(scene))
+        _SCENES[(name, conditioned)] = sc
+
+    return s
+
+
+def _flat(v, out, path):
+    """Flatten a property / parameter value into (path, scalar) pairs (numbers, vectors, tuples)."""
+    from scenic.core.vectors import Orientation, Vector
+
+    if isinstance(v, Vector):
+        for i, c in enumerate(v.coordinates):
+            out.append((path + f".{'xyz'[i]}", c))
+    elif isinstance(v, (tuple, list)):
+        for i, c in enumerate(v):
+            _flat(c, out, path + f"[{i}]")
+    elif isinstance(v, (bool, str, type(None))):
+        out.append((path, v))
+    elif E.is_symbolic(v) or isinstance(v, (int, float)):
+        out.append((path, v))
+    elif hasattr(v, "item") and not hasattr(v, "__len__"):  # numpy scalar
+        out.append((path, v.item()))
+    elif isinstance(v, Orientation):
+        for i, c in enumerate(v.q):
+            out.append((path + f".q{i}", c))
+
+
+def _scene_values(scenario, scene):
+    out = []
+    for i, o in enumerate(scene.objects):
+        for prop in sorted(o.properties):
+            if prop in ("shape", "behavior", "regionContainedIn", "lastActions", "mutator"):
+                continue
+            try:
+                v = getattr(o, prop)
+            except Exception:
+                continue
+            _flat(v, out, f"objects[{i}].{prop}")
+    for p in sorted(scene.params):
+        _flat(scene.params[p], out, f"params[{p}]")
+    return out
+
+
+def h_scene(name, conditioned, mode):
+    def h(ctx):
+        from scenic.core.serialization import SerializationError, Serializer
+
+        sc = _SCENES[(name, conditioned)]
+        with _RNGPatched(SceneRNG(ctx)):
+            scene, _n = sc.generate(maxIterations=1, verbosity=0)
+        saved = (struct.pack, struct.unpack)
+        struct.pack, struct.unpack = M.make_struct_model(ctx)
+        try:
+            body(ctx, sc, scene)
+        finally:
+            struct.pack, struct.unpack = saved
+
+    def body(ctx, sc, scene):
+        from scenic.core.serialization import SerializationError, Serializer
+
+        w = _ser(M.Stream())
+        w.writeScene(sc, scene)
+        data = w.stream.getvalue()
+        if mode == "roundtrip":
+            r = _ser(M.Stream(data))
+            scene2 = r.readScene(sc)
+            ctx.check("decoding-consumes-the-whole-encoding", r.stream.remaining() == 0, left=r.stream.remaining())
+            a, b = _scene_values(sc, scene), _scene_values(sc, scene2)
+            ctx.check("same-objects-properties-and-parameters", [p for p, _ in a] == [p for p, _ in b])
+            mutated = {f"objects[{i}]." for i, o in enumerate(scene.objects) if o.mutationScale != 0}
+            for (pa, va), (pb, vb) in zip(a, b):
+                same = (va == vb)
+                if not E.is_symbolic(same):
+                    same = True if same else False
+                if any(pa.startswith(m) for m in mutated):
+                    # one label for all properties of an object with mutation enabled (see known_findings.json)
+                    ctx.check("decoded mutated object equals original", same, property=pa, original=va, decoded=vb)
+                else:
+                    ctx.check(f"decoded {pa} equals original", same, original=va, decoded=vb)
+        elif mode == "truncation":
+            cut = ctx.int("cut", 0, len(data) - 1)
+            n = 0
+            while n < len(data) - 1 and not (cut == n):
+                n += 1
+            r = _ser(M.Stream(data[:n]))
+            try:
+                r.readScene(sc)
+                outcome = "decoded"
+            except SerializationError:
+                outcome = "refused"
+            ctx.check("truncated-scene-refused-with-serialization-error", outcome == "refused", cut=n, length=len(data))
+        elif mode == "foreign":
+            which = ctx.choice("header-field", ["version", "astHash", "optionsHash"])
+            lo, hi = {"version": (0, 2), "astHash": (2, 6), "optionsHash": (6, 10)}[which]
+            i = ctx.choice("byte", list(range(lo, hi)))
+            nb = ctx.int("new-byte", 0, 255)
+            ctx.assume(nb != data[i])
+            bad = list(data)
+            bad[i] = nb
+            r = _ser(M.Stream(bad))
+            try:
+                r.readScene(sc)
+                outcome = "decoded"
+            except SerializationError:
+                outcome = "refused"
+            ctx.check("scene-of-a-different-program-version-or-options-refused", outcome == "refused", field=which, byte=i)
+
+    return h
